@@ -591,7 +591,13 @@ func macroEm(exp Exporter) {
 			args = args[1:]
 		}
 	}
-	exp.EndMarkupBlock(tag, id, punct)
+	if ctx.parScope {
+		exp.EndMarkupBlock(tag, id, punct)
+	} else {
+		// No paragraph is open: the markup was closed when the last
+		// paragraph ended and has not been reopened since.
+		fmt.Fprint(ctx.W(), punct)
+	}
 	if len(args) > 0 {
 		if !ctx.Inline {
 			ctx.Error("useless args in macro `.Em'")
